@@ -41,7 +41,18 @@ def unchanged(ctx, Y, snap, what):
 @st.composite
 def cases(draw, tier):
     kw = dict(d_max=6, size_max=4096, r_max=6) if tier == "quick" else dict(d_max=8, size_max=2 ** 15, r_max=8)
-    return {"Y": draw(gen.tt_specs(**kw))}
+    spec = draw(gen.tt_specs(**kw))
+    case = {"Y": spec}
+    if draw(st.integers(0, 2)) == 0:
+        # extreme scales: core k is multiplied by 2**shift[k]; single cores stay representable, products do not
+        lim = 400 if tier == "quick" else 480
+        pat = draw(st.sampled_from(["up", "down", "alternate", "free"]))
+        d = len(spec["n"])
+        mag = [draw(st.integers(lim // 2, lim)) for _ in range(d)]
+        sign = {"up": [1] * d, "down": [-1] * d, "alternate": [(-1) ** k for k in range(d)],
+                "free": [draw(st.sampled_from([-1, 1])) for _ in range(d)]}[pat]
+        case["shift"] = [m_ * s_ for m_, s_ in zip(mag, sign)]
+    return case
 
 
 def check_orth(ctx, Y, F, Z, p, k, stab, tF, nrmY):
@@ -75,7 +86,8 @@ def check_orth(ctx, Y, F, Z, p, k, stab, tF, nrmY):
         ctx.check(mx <= 2.0, "orthogonalize(use_stab): an entry of Z is larger than 2", max_entry=mx, k=k)
         pm = float(np.max(np.abs(Z[k])))
         if pm > 0:
-            ctx.check(1.0 <= pm < 2.0, "orthogonalize(use_stab): pivot core not normalised to [1, 2)", pivot_max=pm, k=k)
+            # floor(log2(x)) rounds up for x = 2^e (1 - 2^-53): the mantissa may be 1 - 2^-53
+            ctx.check(1.0 - 4 * EPS <= pm < 2.0, "orthogonalize(use_stab): pivot core not normalised to [1, 2)", pivot_max=pm, k=k)
     return rout != rin
 
 
@@ -87,6 +99,28 @@ def prop_orth(case, ctx):
     nrmY = fro(F)
     tF = tolF(Y)
     ctx.label(*gen.spec_labels(spec))
+    if case.get("shift") and spec["fam"] != "scaled":
+        # the input is Y with core k multiplied by 2**shift[k] (far outside the double range as a whole); the stabilised
+        # result (Z, p) is compared with the base tensor after removing the exact factor 2**sum(shift)
+        ctx.label("extreme_scale")
+        sh = [int(x) for x in case["shift"]]
+        Ys = [np.ldexp(G, e_) for G, e_ in zip(Y, sh)]
+        snap_s = snapshot(Ys)
+        for k in range(d):
+            res = ctx.lib(teneva.orthogonalize, Ys, k, True)
+            ctx.check(isinstance(res, tuple) and len(res) == 2, "orthogonalize(use_stab=True) must return (Z, p)")
+            Z, p = res
+            unchanged(ctx, Ys, snap_s, "orthogonalize")
+            ctx.check(isinstance(p, int), "orthogonalize: exponent p is not a Python int", p=repr(p))
+            why = oracle.wellformed(Z, oracle.shape_of(Y))
+            ctx.check(why is None, f"orthogonalize(use_stab) on an extremely scaled tensor: result not well-formed / finite: {why}", k=k, shift=sh)
+            if nrmY > 0:
+                ctx.check(abs(p - sum(sh) - math.log2(nrmY)) < 64, "orthogonalize(use_stab): exponent inconsistent with the scale of the input",
+                          p=p, shift_sum=sum(sh), log2_norm_base=math.log2(nrmY), k=k)
+            check_orth(ctx, Y, F, Z, (p - sum(sh)) if nrmY > 0 else 0, k, True, tF, nrmY)
+            ctx.inner(1, nontrivial_key=f"x{k}")
+        ctx.nontrivial(True)
+        return
     snap = snapshot(Y)
     changed_any = False
     for k in range(d):
